@@ -25,7 +25,8 @@
 (*                                                                         *)
 (* Variant = "property": what must hold.  A critical section contains only *)
 (*   string comparisons: operands are evaluated BEFORE the lock is taken   *)
-(*   (EvalArgs at pc start), generators leave the `with` BEFORE the first  *)
+(*   (EvalArgs at pc start; an operand error of a generator site ends the  *)
+(*   call there: ArgError), generators leave the `with` BEFORE the first   *)
 (*   yield (ExitGen, pc out), and every failure inside __enter__ releases  *)
 (*   the lock (RaiseFromEnter also from pc fail2).                         *)
 (* Variant = "pinned": the code as it is.  The deviations are the named    *)
